@@ -228,6 +228,7 @@ impl DecoderWork {
             data_len,
             data_capacity,
             bitmap_len: self.received.len(),
+            bitmap_ptr: self.received.as_slice().as_ptr() as usize,
         }
     }
 
